@@ -393,11 +393,17 @@ theorem inv_addVariable {s : BState} {ty : Ty} {name : String} (h : Inv s) : Inv
 theorem inv_addFunction {s : BState} {name : String} (h : Inv s) : Inv (s.addFunction name).1 :=
   InvH.addFunc h name _
 
-theorem inv_addLocation {s : BState} {t : Nat} {name : String} {a b : Bool} (h : Inv s) : Inv (s.addLocation t name a b).1 :=
-  InvH.addLoc h name t a b
+theorem inv_addLocation {s : BState} {t : Nat} {name : String} {a b : Bool} (h : Inv s) : Inv (s.addLocation t name a b).1 := by
+  unfold BState.addLocation
+  split
+  · exact h
+  · exact InvH.addLoc h name t a b
 
-theorem inv_addBranchpoint {s : BState} {t : Nat} {name : String} (h : Inv s) : Inv (s.addBranchpoint t name).1 :=
-  InvH.addBp h name t
+theorem inv_addBranchpoint {s : BState} {t : Nat} {name : String} (h : Inv s) : Inv (s.addBranchpoint t name).1 := by
+  unfold BState.addBranchpoint
+  split
+  · exact h
+  · exact InvH.addBp h name t
 
 theorem inv_addTemplate {s : BState} {name : String} {isTA dyn : Bool} (h : Inv s) : Inv (s.addTemplate name isTA dyn).1 :=
   InvH.addTempl h name isTA dyn _ _
